@@ -1,7 +1,7 @@
 """C07: per-actor certificates + glue (see lean/Poupool/Properties/C07.lean and checks/actors_common.py)."""
 from checks import actors_common as ac
 
-THEOREMS = ['Poupool.C07.drain_backwash_only_in_wash', 'Poupool.C07.wash_needs_high_tank', 'Poupool.C07.wash_cycle_rows', 'Poupool.C07.rinse_exit_publishes']
+THEOREMS = ['Poupool.C07.auto_backwash_only_when_due', 'Poupool.C07.drain_backwash_only_in_wash', 'Poupool.C07.wash_needs_high_tank', 'Poupool.C07.wash_cycle_rows', 'Poupool.C07.rinse_exit_publishes']
 MODULE = "Poupool.Properties.C07"
 
 
@@ -21,6 +21,8 @@ def replay(path):
 
 
 def extra(chk, info, res):
+    from checks import guards_common
+    guards_common.correspondence(chk, ['tank_is_high', 'start_backwash'])
     if info is not None:
         from vlib import lean
         lean.check_theorems(chk, "Poupool.Properties.C08", ["Poupool.C08.filtration_timeouts", "Poupool.C08.other_timeouts", "Poupool.C08.filtration_timers"])
